@@ -36,7 +36,7 @@ KNOWN = ["metadata", "lazy-import", "old-naming", "transport=grpc", "transport=r
          "rest-numeric-enums", "add-iam-methods", "autogen-snippets=false", "autogen-snippets=T", "autogen-snippets",
          "warehouse-package-name=foo-bar", "warehouse-package-name=x", "proto-plus-deps=a.b+c.d", "proto-plus-deps=q",
          "metadata=false", "lazy-import=0", "transport=", "transport"]
-PREFIXED = ["python-gapic-name=my_lib", "python-gapic-name=Other Lib", "python-gapic-namespace=x.y", "python-gapic-namespace=Zed",
+PREFIXED = ["python-gapic-namespace=google.cloud", "python-gapic-namespace=ads", "python-gapic-namespace=a.b.c", "python-gapic-name=my_lib", "python-gapic-name=Other Lib", "python-gapic-namespace=x.y", "python-gapic-namespace=Zed",
             "python-gapic-templates=DEFAULT", "python-gapic-templates=/opt/tpl/ads", "python-gapic-bogus=1", "python-gapic-bogus",
             "python-gapic-transport=rest", "python-gapic-metadata", "python-gapic-", "python-gapic-name", "python-gapic-other=z"]
 UNKNOWN = ["foo", "foo=bar", "paths=source_relative", "Mgoogle/api/x.proto=pkg", "go-gapic-package=a;b", "", "x y", "FOO=1",
@@ -151,8 +151,11 @@ def gen_naming_case(r):
     elif k < 0.5:
         pk = [r.choice(["", ".", "v1", "1abc.v1", "a..b.v1", "a.v1.b.v2", "Foo.v1", "a.b.v1beta", "x.v1alpha.y"])]
     r.shuffle(pk)
-    opt = ",".join(x for x in gen_option_items(r, allow_bad=False) if "templates" not in x)
-    return {"packages": pk, "opt": opt}
+    items = [x for x in gen_option_items(r, allow_bad=False) if "templates" not in x]
+    if r.random() < 0.2:     # the namespace key repeated, dotted and plain values mixed, interleaved with the other options
+        for v in r.sample(["google.cloud", "ads", "a.b.c", "Zed", "x.y"], r.choice([2, 3])):
+            items.insert(r.randint(0, len(items)), "python-gapic-namespace=" + v)
+    return {"packages": pk, "opt": ",".join(items)}
 
 
 def naming_checks(ctx, cases):
@@ -293,6 +296,8 @@ def build_checks(ctx, cases):
 def run_pure(ctx):
     of = option_files()
     strings = [",".join(gen_option_items(env.rng("C11-opt", i), files=list(of))) for i in range(ctx.n(120, 1500))]
+    strings += ["python-gapic-namespace=google.cloud,python-gapic-namespace=ads", "python-gapic-namespace=ads,foo=1,python-gapic-namespace=google.cloud,python-gapic-name=my_lib",
+                "python-gapic-namespace=a.b,python-gapic-namespace=c.d,metadata", "python-gapic-namespace=a,python-gapic-namespace=b"]
     strings += KNOWN + PREFIXED + UNKNOWN + BAD + MIDMARKER + ["python-gapic-name=shelf," + m for m in MIDMARKER[:4]] + [m + "," + m for m in MIDMARKER[:3]] + ["metadata,foo=a=b", "a=b,transport=rest", ",,", " , "]
     checks = option_checks(ctx, strings)
     checks += naming_checks(ctx, [gen_naming_case(env.rng("C11-naming", i)) for i in range(ctx.n(150, 2000))])
@@ -328,7 +333,10 @@ DOCUMENTED = {"add-iam-methods", "autogen-snippets", "lazy-import", "metadata", 
 E2E_KNOWN = ["metadata", "transport=grpc", "transport=rest", "transport=grpc+rest", "rest-numeric-enums", "autogen-snippets=false",
              "warehouse-package-name=foo-bar", "lazy-import", "metadata", "transport=grpc+rest"]
 E2E_OVERRIDES = [("python-gapic-name=my_lib", "name", "my_lib"), ("python-gapic-namespace=x.y", "namespace", ["x", "y"]),
-                 ("python-gapic-namespace=Zed", "namespace", ["zed"]), ("python-gapic-name=Other", "name", "other")]
+                 ("python-gapic-namespace=Zed", "namespace", ["zed"]), ("python-gapic-name=Other", "name", "other"),
+                 ("python-gapic-namespace=google.cloud", "namespace", ["google", "cloud"]), ("python-gapic-namespace=ads", "namespace", ["ads"]),
+                 ("python-gapic-namespace=acme.data.x1", "namespace", ["acme", "data", "x1"])]
+NS_OVERRIDES = [o for o in E2E_OVERRIDES if o[1] == "namespace"]
 E2E_UNKNOWN = ["foo", "foo=bar", "paths=source_relative", "Mgoogle/api/x.proto=pkg", "go-gapic-package=a;b", "x y", "FOO=1", "Metadata",
                "python-gapic-bogus=1", "plugins=grpc", "", "foo=a=b", "Mx.proto=pkg=alias", "k==", "a=b=c=d"]
 E2E_BAD_UNKNOWN = ["foo=a=b", "Mx.proto=pkg=alias"]
@@ -455,6 +463,18 @@ def gen_request(r, defect=None):
         params = [p for p in params if opt_key(p) not in ("autogen-snippets", "old-naming") and not p.startswith("python-gapic-templates")]
         params += ["python-gapic-templates=ads-templates", r.choice(["old-naming", "autogen-snippets=false"])]
     r.shuffle(params)
+    if defect == "nsrepeat" or r.random() < 0.06:
+        # the namespace key repeated, dotted and plain values mixed, interleaved with other / unknown options and a name override
+        params = [p for p in params if not p.startswith("python-gapic-namespace")]
+        picks = r.sample(NS_OVERRIDES, r.choice([2, 2, 3]))
+        if not any("." in o[0] for o in picks):
+            picks[r.randrange(len(picks))] = NS_OVERRIDES[3]
+        for o in picks:
+            params.insert(r.randint(0, len(params)), o[0])
+        if r.random() < 0.5 and not any(p.startswith("python-gapic-name=") for p in params):
+            params.insert(r.randint(0, len(params)), "python-gapic-name=my_lib")
+        if r.random() < 0.5:
+            params.insert(r.randint(0, len(params)), r.choice(["foo=1", "paths=source_relative", "x-python-gapic-namespace=acme.books"]))
     if defect == "midmarker" or r.random() < 0.1:
         # alone, after a genuine option of the same name, repeated
         m = r.choice(E2E_MIDMARKER)
@@ -869,6 +889,7 @@ def run(ctx):
     cases += [c for c in (make_case("C11-e2e-casepair", i, "casepair") for i in range(ctx.n(1, 6))) if c]
     cases += [c for c in (make_case("C11-e2e-siblings", i, "siblings") for i in range(ctx.n(1, 8))) if c]
     cases += [c for c in (make_case("C11-e2e-midmarker", i, "midmarker") for i in range(ctx.n(3, 16))) if c]
+    cases += [c for c in (make_case("C11-e2e-nsrepeat", i, "nsrepeat") for i in range(ctx.n(3, 16))) if c]
     checks = run_e2e(ctx, cases)
     eval_e2e(ctx, checks, "c11e2e", len(cases))
     seqs = load_corpus_sequences() + [q for q in (make_sequence("C11-seq", i) for i in range(ctx.n(2, 24))) if q]
